@@ -23,7 +23,9 @@ def check(pid, category, text, note, technique, engine, design_ref):
 
 
 TB = ('Trusted: CPython 3.12, persistent 6.8, gcc/libasan, the vt harness (explorer, reference '
-      'models, canonical dump). Bounded: key universes <= 8 keys, node sizes 2..4.')
+      'models, canonical dump). Bounded: key universes <= 8 keys at node sizes 2..4 (every shape), <= 13 keys at the '
+      'wide node sizes 2/8, 8/2, 6/6 (thinning spaces), single operations on scripted states of up to 800 keys at the '
+      'default node sizes.')
 
 check('C01', 'model_checking',
       'Exhaustive BFS over every reachable structural state of the real container (C and Python, '
